@@ -9,7 +9,13 @@
       C08: every C06-admitted transaction passes C08's verifier (discharged by C06's chain invariant), so all of C08's
       observables are its reference folds over exactly C06's admitted set.
     * the only hypothesis: delivered refs are SHA-256 values (`Small`, `< 2^256`).  C06 models refs as unbounded `Nat`,
-      C08 as `BitVec 256`; the embedding is injective exactly there (see `embRef_not_injective_beyond_256_bits`).
+      C08 as `BitVec 256`; the embedding is injective exactly there (witness: `small_refs_needed`).
+    * C07's DAG is an unconstrained abstract list with its own `addCheck`, `xorOf`, `lcOf`, `ibltSet`, `findBetween`.  Here it
+      is the view of C06's admitted list: `DagOK` is discharged by C06 (`admitted_view_is_valid_dag`), its `Add` decision is
+      C06's (`add_decisions_agree`, `protocol_add_simulates_admission`), its digests are C08's (`gossip_digests_are_c08_digests`,
+      `range_reply_is_c08_listing`), XOR faithfulness is restated about C08's `XOR(c)` (`xor_faithfulness_from_c08` / `_to_c08`)
+      and `converges` applies to C06 ∘ C08-reachable nodes (`converges_end_to_end`).  What C07 assumes and C06 does not provide:
+      `public_payload_not_provided_by_add`.
 -/
 import NutsProofs.Lemmas.ComposeDag
 import NutsModel.C06.Cfg
